@@ -665,6 +665,10 @@ func (w *World) intrinsic(t *Thread, f *Frame, fnv FuncV, args []Val, c *ssa.Cal
 		}
 	case "strings.Contains":
 		return w.strContains(args[0], args[1]), false
+	case "(*encoding/json.UnmarshalTypeError).Error":
+		return "json: cannot unmarshal value into Go struct field (abstract record)", false
+	case "(*encoding/json.SyntaxError).Error":
+		return "invalid character in JSON input (abstract record)", false
 	case "bytes.Equal":
 		x, xok := args[0].(BytesV)
 		y, yok := args[1].(BytesV)
@@ -693,7 +697,21 @@ func (w *World) intrinsic(t *Thread, f *Frame, fnv FuncV, args []Val, c *ssa.Cal
 			}
 		}
 		return sb.String(), false
-	case "strings.ReplaceAll", "strings.TrimSpace", "strings.ToUpper", "strings.TrimPrefix", "strings.TrimSuffix", "strings.HasSuffix",
+	case "strings.TrimSpace":
+		switch x := args[0].(type) {
+		case string:
+			return strings.TrimSpace(x), false
+		case Sym:
+			// abstraction: the argument either trims to itself, or it is white space only (witness: one blank)
+			// and trims to the empty string
+			t := w.fresh("trim", "String")
+			w.s.send(fmt.Sprintf("(assert (=> (= %s \"\") (= %s \"\")))", x.t, t))
+			w.s.send(fmt.Sprintf("(assert (=> (not (= %s \"\")) (= %s %s)))", t, t, x.t))
+			w.s.send(fmt.Sprintf("(assert (=> (and (= %s \"\") (not (= %s \"\"))) (= %s \" \")))", t, x.t, x.t))
+			return symS(t), false
+		}
+		panic(engErr("strings.TrimSpace on a partially symbolic string"))
+	case "strings.ReplaceAll", "strings.ToUpper", "strings.TrimPrefix", "strings.TrimSuffix", "strings.HasSuffix",
 		"strings.Index", "strings.EqualFold", "strings.Repeat", "strings.Trim", "strings.TrimLeft", "strings.TrimRight", "strings.Count", "strings.LastIndex", "strings.Title":
 		var sa []string
 		var ia []int64
@@ -1690,6 +1708,19 @@ func (w *World) jsonUnmarshal(t *Thread, data Val, target IfaceV) Val {
 	}
 	if isPayload {
 		if w.truth(w.recFn(b.r, "sErr", "Bool")) {
+			// valid JSON whose members do not fit the struct is a *json.UnmarshalTypeError (the decoder has
+			// filled in what did fit); anything else a *json.SyntaxError
+			if w.eng.jsonTypeErrT != nil && !w.truth(w.recFn(b.r, "mErr", "Bool")) {
+				if !w.infeas {
+					w.store(t, ptr, StructV{[]Val{w.recFn(b.r, "sID", "String"), w.recFn(b.r, "sTok", "String"), w.recFn(b.r, "sPrio", "Int")}})
+				}
+				o := w.newObj(Opaque{"json.UnmarshalTypeError"}, w.eng.jsonTypeErrT)
+				return IfaceV{typ: types.NewPointer(w.eng.jsonTypeErrT), v: Ptr{o: o}}
+			}
+			if w.eng.jsonSyntaxErrT != nil {
+				o := w.newObj(Opaque{"json.SyntaxError"}, w.eng.jsonSyntaxErrT)
+				return IfaceV{typ: types.NewPointer(w.eng.jsonSyntaxErrT), v: Ptr{o: o}}
+			}
 			return errIface(w, "json: cannot unmarshal (abstract record)")
 		}
 		if w.infeas {
